@@ -56,8 +56,12 @@ Str(k) == IF k < 0 THEN <<45>> \o Digits(0 - k) ELSE <<32>> \o Digits(k)
 RECURSIVE DigitsVal(_, _)
 DigitsVal(s, acc) ==
   IF s = <<>> \/ Head(s) < 48 \/ Head(s) > 57 THEN acc ELSE DigitsVal(Tail(s), acc * 10 + (Head(s) - 48))
-Val(s) ==
-  LET t == LTrim(s) IN
+\* blanks do not count, wherever they stand ("VAL ignores blanks": VAL("1 2") is 12)
+RECURSIVE NoBlanks(_)
+NoBlanks(s) == IF s = <<>> THEN <<>> ELSE IF Head(s) = 32 THEN NoBlanks(Tail(s)) ELSE <<Head(s)>> \o NoBlanks(Tail(s))
+Val(s0) ==
+  LET s == NoBlanks(s0)
+      t == s IN
   IF t = <<>> THEN 0
   ELSE IF Head(t) = 45 THEN 0 - DigitsVal(LTrim(Tail(t)), 0)
   ELSE IF Head(t) = 43 THEN DigitsVal(LTrim(Tail(t)), 0)
